@@ -2,8 +2,11 @@ package verifrt
 
 import (
 	"fmt"
+	"os"
 	"time"
 )
+
+var debugExplore = os.Getenv("VERIF_DEBUG_EXPLORE") != ""
 
 // Cache is the visited-state table of one exploration.
 type Cache struct {
@@ -47,6 +50,7 @@ type Stats struct {
 	Bound      int
 	Aborted    int
 	FirstAbort string
+	SharedDup  int             // executions of the shared choice tree repeated by jobs other than job 0 (not counted)
 	First      *Outcome        // the default (deviation-free) execution
 	Finals     map[uint64]bool // distinct final state keys of complete executions
 }
@@ -90,8 +94,16 @@ func Explore(sc *Scenario, opts Options) (Stats, []Violation) {
 		cache = NewCache()
 	}
 	var viol []Violation
-	type frame struct{ prefix []int }
-	stack := []frame{{nil}}
+	nroot := 0
+	// Intra-scenario sharding (SplitK > 1): the deviation-free tree of environment choices is
+	// "shared" - every job executes it - and the scheduling deviations found on shared executions
+	// are dealt round-robin to the jobs, each of which explores the subtrees it owns completely.
+	// Shared executions are counted and checked by job 0 only.
+	type frame struct {
+		prefix []int
+		shared bool
+	}
+	stack := []frame{{nil, opts.SplitK > 1}}
 	for len(stack) > 0 {
 		if opts.MaxExecs > 0 && st.Execs >= opts.MaxExecs {
 			st.Exhaustive = false
@@ -106,7 +118,15 @@ func Explore(sc *Scenario, opts Options) (Stats, []Violation) {
 		fr := stack[len(stack)-1]
 		stack = stack[:len(stack)-1]
 		o := run(fr.prefix, &opts, cache, sc.Body)
+		counted := !fr.shared || opts.SplitIdx == 0
 		st.Execs++
+		if !counted {
+			st.Execs--
+			st.SharedDup++
+		}
+		if debugExplore {
+			fmt.Printf("exec prefix=%v points=%d pruned=%v steps=%d fails=%v\n", fr.prefix, len(o.Points), o.Pruned, o.Steps, o.Fails)
+		}
 		if st.First == nil {
 			st.First = o
 		}
@@ -121,7 +141,9 @@ func Explore(sc *Scenario, opts Options) (Stats, []Violation) {
 				st.FirstAbort = fmt.Sprintf("%s (prefix %v)", o.Aborted, fr.prefix)
 			}
 		}
-		if o.Pruned {
+		if !counted {
+			// executed only to find this job's share of the deviations; job 0 judges it
+		} else if o.Pruned {
 			st.Pruned++
 		} else if o.Aborted == "" {
 			st.Complete++
@@ -154,7 +176,7 @@ func Explore(sc *Scenario, opts Options) (Stats, []Violation) {
 		}
 		// branch on every decision after the replayed prefix
 		spent := 0
-		var kids [][]int
+		var kids []frame
 		for i, p := range o.Points {
 			if i >= len(fr.prefix) {
 				for alt := 1; alt < p.N; alt++ {
@@ -168,7 +190,18 @@ func Explore(sc *Scenario, opts Options) (Stats, []Violation) {
 							np[j] = o.Points[j].Chosen
 						}
 						np[i] = alt
-						kids = append(kids, np)
+						kidShared := false
+						if fr.shared {
+							if p.Kind == KChoose && spent == 0 {
+								kidShared = true
+							} else {
+								nroot++
+								if (nroot-1)%opts.SplitK != opts.SplitIdx {
+									continue
+								}
+							}
+						}
+						kids = append(kids, frame{np, kidShared})
 					}
 				}
 			}
@@ -178,7 +211,7 @@ func Explore(sc *Scenario, opts Options) (Stats, []Violation) {
 		}
 		// push in reverse so that the earliest decision's first alternative is explored next
 		for i := len(kids) - 1; i >= 0; i-- {
-			stack = append(stack, frame{kids[i]})
+			stack = append(stack, kids[i])
 		}
 	}
 	if cache != nil {
